@@ -1420,7 +1420,8 @@ impl ErasedNode for Node {
         if !was_necessary {
             self.became_necessary(state);
         }
-        if let Some(Kind::Expert(expert)) = self.kind() {
+        // it is the *parent* that may be an expert node with a callback on this edge
+        if let Some(Kind::Expert(expert)) = p.kind() {
             expert.run_edge_callback(child_index)
         }
     }
